@@ -143,6 +143,7 @@ RULE_GROUPS: Dict[str, Callable] = {
     'bw.string_annotations': bw.rule_string_annotations,
     'bw.build_node': bw.rule_build_node,
     'bw.node_ids_one_to_one': bw.rule_node_ids_one_to_one,
+    'bw.mark_factories': bw.rule_mark_factories,
     'bw.recurrent_validations': bw.rule_recurrent_validations,
     'ha.active_mark_released': ha.rule_active_mark_released,
     'rcw.recurrent_worlds': rcw.rule_recurrent_worlds,
@@ -248,6 +249,7 @@ RULES: Dict[str, Tuple[str, str]] = {
     'VL-9': ('bw.defects_rejected', 'every path of build() (traversal, single node, input = output) rejects a defective node with the specific error'),
     'VL-10': ('bw.defects_rejected', 'declaration sets free of defects build, one per mark kind'),
     'RC-11': ('rcw.recurrent_worlds', 'the running mark of a recurrent subgraph is released on every regular completion of its driver'),
+    'BD-17': ('bw.mark_factories', 'every factory of the marks module returns its own mark, built from its arguments'),
     'BN-8': ('bw.node_ids_one_to_one', 'nodes that differ in their explicit name or type get different node ids'),
     'BN-7': ('bw.build_node', 'deriving a node with build_node does not change the annotations of the class it derives from'),
     'BN-6': ('bw.build_node', 'two classes generated by build_node from one unnamed base get different node ids'),
@@ -761,7 +763,11 @@ _add('C11', 'RC-12')
 _add('C04', 'RC-12')
 _add('C18', 'FS-9')
 _add('C17', 'SH-5')
-_add('C15', 'BN-6', 'BN-8')
+_add('C15', 'BN-6', 'BN-8', 'BD-17')
+_add('C10', 'BD-17')
+_add('C17', 'BN-4')
+_add('C04', 'PB-1')
+_add('C14', 'ER-2')
 _add('C16', 'BN-7')
 _add('C15', 'BN-7')
 _add('C07', 'BN-7')
